@@ -167,6 +167,8 @@ def run(ctx, report: Report) -> None:
     boolean_algebra_table(ctx, r7, deep=(ctx.tier == 'thorough'))
     from .e2ematch import long_list_table
     long_list_table(ctx, r7, deep=(ctx.tier == 'thorough'))
+    from .e2ematch import state_algebra_table
+    state_algebra_table(ctx, r7, deep=(ctx.tier == 'thorough'))
 
     # the logical pseudo-classes under every spelling of their names (a spelling that loses the negation / forgiving / relative
     # flag turns :not() into :is())
